@@ -103,71 +103,90 @@ theorem dst_injective_walk (pm : Nat → Bytes → Bool) (inv : Inv) (mimetype o
     simp only [allNormal, List.all_append, Bool.and_eq_true] at hm ⊢; exact ⟨hm, hrels r2 hr2⟩
   exact dst_injective_same_root root (m ++ r1) (m ++ r2) output s1 s2 t1 t2 hd ho n1 n2 e1 e2 hdst
 
-/-- **Full statement** (false, see the counterexample): in a plan that is not a bundle, two tasks that
-    share a destination file are the same task. -/
-def dst_injective_full : Prop :=
-  ∀ (pm : Nat → Bytes → Bool) (fs : Fs) (inv : Inv) (pl : Plan),
-    plan pm fs inv = some pl → inv.bundle = false →
-    ∀ t1 ∈ pl.tasks, ∀ t2 ∈ pl.tasks, t1.dst.isSome → t1.dst = t2.dst → t1.src = t2.src
+/-- **dst_injective** (full strength since fix 33fb456): in a plan that is not a bundle, two tasks that
+    share a destination file are the same task — for every tree, every invocation, every filter oracle. -/
+theorem dst_injective (pm : Nat → Bytes → Bool) (fs : Fs) (inv : Inv) (pl : Plan)
+    (hp : plan pm fs inv = some pl) (hb : inv.bundle = false) :
+    ∀ t1 ∈ pl.tasks, ∀ t2 ∈ pl.tasks, t1.dst.isSome → t1.dst = t2.dst → t1 = t2 := by
+  simp only [plan] at hp
+  cases hc : planCore pm fs inv with
+  | none => simp [hc] at hp
+  | some pl' =>
+    simp only [hc, hb, Bool.not_false, Bool.true_and] at hp
+    split at hp
+    · cases hp
+    · rename_i hd
+      cases hp
+      exact dupDst_false _ (by simpa using hd)
 
-/-- K-C19-2: `minify -o out/ a/x.css b/x.css` — equal base names below different roots collide. -/
-theorem dst_injective_counterexample : ¬ dst_injective_full := by
-  intro h
-  have := h (fun _ _ => false)
+/-- regression (K-C19-2): `minify -o out/ a/x.css b/x.css` is rejected -/
+example : plan (fun _ _ => false)
     { files := [(strBytes "a/x.css", []), (strBytes "b/x.css", [])], dirs := [strBytes "a", strBytes "b"] }
-    { inputs := [strBytes "a/x.css", strBytes "b/x.css"], output := strBytes "out/" }
-    { tasks := [⟨⟨false, [strBytes "a"]⟩, ⟨false, [strBytes "a", strBytes "x.css"]⟩,
-                 some ⟨false, [strBytes "out", strBytes "x.css"]⟩, false⟩,
-                ⟨⟨false, [strBytes "b"]⟩, ⟨false, [strBytes "b", strBytes "x.css"]⟩,
-                 some ⟨false, [strBytes "out", strBytes "x.css"]⟩, false⟩],
-      outDir := some (strBytes "out"), mimetype := [] }
-    (by decide +kernel) rfl _ (List.mem_cons_self ..) _ (List.mem_cons_of_mem _ (List.mem_cons_self ..)) rfl rfl
-  revert this
-  decide
+    { inputs := [strBytes "a/x.css", strBytes "b/x.css"], output := strBytes "out/" } = none := by
+  decide +kernel
+
+/-- … while different base names are accepted (two tasks) -/
+example : (plan (fun _ _ => false)
+    { files := [(strBytes "a/x.css", []), (strBytes "b/y.css", [])], dirs := [strBytes "a", strBytes "b"] }
+    { inputs := [strBytes "a/x.css", strBytes "b/y.css"], output := strBytes "out/" }).map (·.tasks.length) = some 2 := by
+  decide +kernel
 
 /-! ## only the destinations are touched -/
 
-/-- **only_dst_touched**: whatever the invocation (selection, filters, bundle, sync, errors), a path that
-    is neither the destination of a task nor that destination's `.bak` has the same content (or absence)
-    after the command as before. -/
-theorem only_dst_touched (pm : Nat → Bytes → Bool) (lib : Bytes → Bytes → Option Bytes) (inv : Inv)
+/-- guard of `only_dst_touched` (K-C19-5): no task is a sync *bundle* (`--bundle --sync` with a filtered-out
+    first input) -/
+def noSyncBundle (ts : List Task) : Prop := ∀ t ∈ ts, t.sync = true → t.srcs.length ≤ 1
+
+/-- **only_dst_touched** (partial only in the guard `noSyncBundle`; the `.bak` exception is gone since
+    fixes 3823c65 / 44ee05b): whatever the invocation (selection, filters, bundle, sync, errors, refused
+    tasks), a path that is not the destination of a task has the same content (or absence) after the
+    command as before — in particular no `<name>.bak` is created, overwritten or removed. -/
+theorem only_dst_touched_partial (pm : Nat → Bytes → Bool) (lib : Bytes → Bytes → Option Bytes) (inv : Inv)
     (fs : Fs) (q : Path)
-    (h : ∀ t ∈ (effects pm lib inv fs).tasks, q ≠ t.dst ∧ q ≠ bak t.dst) :
+    (h : ∀ t ∈ (effects pm lib inv fs).tasks, q ≠ t.dst)
+    (hg : noSyncBundle (effects pm lib inv fs).tasks) :
     (effects pm lib inv fs).fs.get q = fs.get q := by
-  unfold effects at h ⊢
+  unfold effects at h hg ⊢
   cases hp : plan pm fs inv with
   | none => rfl
   | some pl =>
-    simp only [hp] at h ⊢
-    have hmk : ∀ d, (match (some d : Option Bytes) with
-        | some d => run (mkdirOps fs d) fs
-        | none => fs).get q = fs.get q := by
-      intro d
-      exact get_run_untouched _ _ _ (fun op ho => by rw [touches_mkdirOps _ _ _ ho]; simp)
+    simp only [hp] at h hg ⊢
     have h0 : (match pl.outDir with
         | some d => run (mkdirOps fs d) fs
         | none => fs).get q = fs.get q := by
       cases pl.outDir with
       | none => rfl
-      | some d => exact hmk d
+      | some d => exact get_run_untouched _ _ _ (fun op ho => by rw [touches_mkdirOps _ _ _ ho]; simp)
     rw [← h0]
     apply get_runTasks_untouched
     intro t ht
-    exact h t.1 (List.mem_map.mpr ⟨t, ht, rfl⟩)
+    exact ⟨h t.1 (List.mem_map.mpr ⟨t, ht, rfl⟩), hg t.1 (List.mem_map.mpr ⟨t, ht, rfl⟩)⟩
 
-/-- **Full statement** of "modifies no other file" (false, K-C19-1): only the destinations change. -/
+/-- **Full statement** without the guard (false, K-C19-5) -/
 def only_dst_touched_full : Prop :=
   ∀ (pm : Nat → Bytes → Bool) (lib : Bytes → Bytes → Option Bytes) (inv : Inv) (fs : Fs) (q : Path),
     (∀ t ∈ (effects pm lib inv fs).tasks, q ≠ t.dst) → (effects pm lib inv fs).fs.get q = fs.get q
 
-/-- K-C19-1: `minify -o a.css a.css` next to an unrelated `a.css.bak` destroys that file. -/
+/-- K-C19-5: `minify -b --sync --exclude=a.txt -o b.css a.txt b.css` — the merged task is a sync copy, which
+    returns before the clean-up: `b.css.bak` is left behind. -/
 theorem only_dst_touched_counterexample : ¬ only_dst_touched_full := by
   intro h
-  have := h (fun _ _ => false) (fun _ b => some b)
-    { inputs := [strBytes "a.css"], output := strBytes "a.css" }
-    { files := [(strBytes "a.css", strBytes "a{}"), (strBytes "a.css.bak", strBytes "PRECIOUS")] }
-    (strBytes "a.css.bak") (by decide +kernel)
+  have := h (fun _ s => s == strBytes "a.txt") (fun _ b => some b)
+    { inputs := [strBytes "a.txt", strBytes "b.css"], output := strBytes "b.css", bundle := true, sync := true,
+      filters := [(false, 0)] }
+    { files := [(strBytes "a.txt", strBytes "hello"), (strBytes "b.css", strBytes "b{}")] }
+    (strBytes "b.css.bak") (by decide +kernel)
   revert this
+  decide +kernel
+
+/-- regression (K-C19-1, fixed by 44ee05b): `minify -o a.css a.css` next to an unrelated `a.css.bak` is
+    refused: nothing changes, exit status 1 -/
+example :
+    (effects (fun _ _ => false) (fun _ b => some b) { inputs := [strBytes "a.css"], output := strBytes "a.css" }
+      { files := [(strBytes "a.css", strBytes "a{}"), (strBytes "a.css.bak", strBytes "PRECIOUS")] }).exit = 1 ∧
+    (effects (fun _ _ => false) (fun _ b => some b) { inputs := [strBytes "a.css"], output := strBytes "a.css" }
+      { files := [(strBytes "a.css", strBytes "a{}"), (strBytes "a.css.bak", strBytes "PRECIOUS")] }).fs.files =
+      [(strBytes "a.css", strBytes "a{}"), (strBytes "a.css.bak", strBytes "PRECIOUS")] := by
   decide +kernel
 
 /-- an invocation that is rejected touches nothing and exits with status 1 -/
@@ -242,33 +261,33 @@ example : readAll [(2, 1), (3, 5), (1, 1), (10, 10), (10, 10), (10, 10)]
     `exit_nonzero_iff_fail`). -/
 theorem fallback_original (cfg : Cfg) (lib : Bytes → Option Bytes) (t : Task) (orig : Fs)
     (hd : t.dst ≠ []) (hn : noop t = false) (hs : t.sync = false)
-    (hex : InputsExist t orig) (hg : trigBakInput t = false) (hnd : t.srcs.Nodup)
+    (hex : InputsExist t orig) (hb : blocked t orig = false) (hnd : t.srcs.Nodup)
     (hfail : lib (inputBytes cfg t orig) = none) :
     let out := t.sep.intercalate (t.srcs.map (contentOf cfg orig))
     (run (minifyOps cfg (.ok [out]) t orig) orig).get t.dst = some out ∧
     minifyOk cfg lib (.ok [out]) t orig = false := by
   have hout : outBytes cfg lib t orig = t.sep.intercalate (t.srcs.map (contentOf cfg orig)) := by
-    rw [out_on_error cfg lib t orig hfail, inputBytes_spec cfg t orig hex hg hnd]
+    rw [out_on_error cfg lib t orig hfail, inputBytes_spec cfg t orig hex hb hnd]
   constructor
-  · have := done_dst cfg lib (.ok [outBytes cfg lib t orig]) t orig hd hn rfl (by intro _; simp [Writes.chunks])
+  · have := done_dst cfg lib (.ok [outBytes cfg lib t orig]) t orig hd hn hb rfl (by intro _; simp [Writes.chunks])
     rw [hout] at this
     exact this
   · have hsk : t.skip = false := by
       simp only [noop, Bool.or_eq_false_iff] at hn; exact hn.1
-    simp [minifyOk, hsk, hn, hs, hfail, Writes.isOk]
+    simp [minifyOk, hsk, hn, hb, hs, hfail, Writes.isOk]
 
 /-- **sync_copies_verbatim**: a sync task (unselected file, `--sync`) leaves at the destination exactly
     the bytes of its source. -/
 theorem sync_copies_verbatim (cfg : Cfg) (lib : Bytes → Option Bytes) (t : Task) (orig : Fs) (s : Path)
     (hsrc : t.srcs = [s]) (hd : t.dst ≠ []) (hn : noop t = false) (hs : t.sync = true)
-    (hex : InputsExist t orig) (hg : trigBakInput t = false) :
+    (hex : InputsExist t orig) (hb : blocked t orig = false) :
     (run (minifyOps cfg (.ok [contentOf cfg orig s]) t orig) orig).get t.dst = some (contentOf cfg orig s) := by
   have hin : inputBytes cfg t orig = contentOf cfg orig s := by
-    rw [inputBytes_spec cfg t orig hex hg (by simp [hsrc]), hsrc]
+    rw [inputBytes_spec cfg t orig hex hb (by simp [hsrc]), hsrc]
     simp [List.intercalate]
   have hout : outBytes cfg lib t orig = contentOf cfg orig s := by
     rw [out_on_sync cfg lib t orig hs, hin]
-  have := done_dst cfg lib (.ok [outBytes cfg lib t orig]) t orig hd hn rfl (by intro _; simp [Writes.chunks])
+  have := done_dst cfg lib (.ok [outBytes cfg lib t orig]) t orig hd hn hb rfl (by intro _; simp [Writes.chunks])
   rw [hout] at this
   exact this
 
@@ -276,21 +295,21 @@ theorem sync_copies_verbatim (cfg : Cfg) (lib : Bytes → Option Bytes) (t : Tas
     original bytes of the sources. -/
 theorem minify_writes_lib_output (cfg : Cfg) (lib : Bytes → Option Bytes) (t : Task) (orig : Fs) (o : Bytes)
     (hd : t.dst ≠ []) (hn : noop t = false) (hs : t.sync = false)
-    (hex : InputsExist t orig) (hg : trigBakInput t = false) (hnd : t.srcs.Nodup)
+    (hex : InputsExist t orig) (hb : blocked t orig = false) (hnd : t.srcs.Nodup)
     (hok : lib (t.sep.intercalate (t.srcs.map (contentOf cfg orig))) = some o) :
     (run (minifyOps cfg (.ok [o]) t orig) orig).get t.dst = some o := by
-  have hin := inputBytes_spec cfg t orig hex hg hnd
+  have hin := inputBytes_spec cfg t orig hex hb hnd
   have hout : outBytes cfg lib t orig = o := out_on_success cfg lib t orig o hs (by rw [hin]; exact hok)
-  have := done_dst cfg lib (.ok [outBytes cfg lib t orig]) t orig hd hn rfl (by intro _; simp [Writes.chunks])
+  have := done_dst cfg lib (.ok [outBytes cfg lib t orig]) t orig hd hn hb rfl (by intro _; simp [Writes.chunks])
   rw [hout] at this
   exact this
 
 /-- **inplace_no_bak_left** (from C20 `done_no_bak`): a file minified onto itself — alone or as one source
     of a bundle — ends without a leftover `<name>.bak`, after success and after a write error. -/
 theorem inplace_no_bak_left (cfg : Cfg) (w : Writes) (t : Task) (orig : Fs)
-    (hd : t.dst ≠ []) (hn : noop t = false) (hs : t.sync = false) (hr : renamed t orig = true) :
+    (hn : noop t = false) (hs : t.sync = false) (hr : renamed t orig = true) :
     (run (minifyOps cfg w t orig) orig).get (bak t.dst) = none :=
-  done_no_bak cfg w t orig hd hn hs hr
+  done_no_bak cfg w t orig hn hs hr
 
 /-- the mimetype table maps `js` (the separator rule of bundles reads `extMap["js"]`) -/
 theorem js_mime_known : jsMime = strBytes "application/javascript" := by decide
